@@ -41,8 +41,8 @@ FOCUS = {
             'literal_rt': 2, 'q_labels': 4, 'ctx_drop': 1, 'gc': 1, 'set_order': 2},
 }
 
-OBJ_NAMES = ['a', 'b', 'c', 'd', 'e', 'f', 'g', 'h', 'zz', 'Ä', 'o 1', 'x-y']
-PROP_NAMES = ['1', '2', '3', '4', '5', '6', '7', '8', '+p', 'q.', 'ß', 'P Q']
+OBJ_NAMES = ['a', 'b', 'c', 'd', 'e', 'f', 'g', 'h', 'zz', 'Ä', 'o 1', 'x-y', 'ab', 'ba']
+PROP_NAMES = ['1', '2', '3', '4', '5', '6', '7', '8', '+p', 'q.', 'ß', 'P Q', '12', '21']
 
 
 # ------------------------------------------------------------------ generator
@@ -576,7 +576,10 @@ class Live:
                 names = names[::-1] + [names[0]]
             elif k % 3 == 2:
                 names = tuple(names)
-            got = call(ctx.intension, iter(names)) if k % 5 == 4 else call(ctx.intension, names)
+            if k % 7 == 6 and names and all(len(x) == 1 for x in names):
+                got = call(ctx.intension, ''.join(names))     # a str is an iterable of one-character labels
+            else:
+                got = call(ctx.intension, iter(names)) if k % 5 == 4 else call(ctx.intension, names)
             rec.check('C01.intension_eq_model', got.ok and got.value == want,
                       lambda: f'intension({names!r}) = {got.text()} model {want!r} rows={f.rows} labels={sl.objs, sl.props}')
             if k % 2 == 0:
@@ -592,7 +595,10 @@ class Live:
                 names = names[::-1] + [names[-1]]
             elif k % 3 == 2:
                 names = tuple(names)
-            got = call(ctx.extension, iter(names)) if k % 5 == 4 else call(ctx.extension, names)
+            if k % 7 == 6 and names and all(len(x) == 1 for x in names):
+                got = call(ctx.extension, ''.join(names))
+            else:
+                got = call(ctx.extension, iter(names)) if k % 5 == 4 else call(ctx.extension, names)
             rec.check('C01.extension_eq_model', got.ok and got.value == want,
                       lambda: f'extension({names!r}) = {got.text()} model {want!r} rows={f.rows} labels={sl.objs, sl.props}')
             if k % 2 == 0:
